@@ -117,6 +117,9 @@ def gen_tables(ctx, max_paths=3000, max_size=1500, same_names_as=None):
                     if r.random() < 0.5:      # a second copy of the same source
                         cds.append({"k": "CopyDecay", "a": cp + "2", "b": m})
                         made.append(cp + "2")
+                    if r.random() < 0.5:      # ... and the declared conjugate of the copy, made by CDecay from the copied table
+                        cds += [{"k": "ChargeConj", "a": cp, "b": cp + "bar"}, {"k": "CDecay", "name": cp + "bar"}]
+                        made.append(cp + "bar")
             for name in made:
                 for up in parts[:j]:
                     for ln in by_m[up]["lines"]:
